@@ -212,6 +212,15 @@ class Sim:
                 return f
         return None
 
+    def find_dp(self, dp):
+        if not dp:
+            return None
+        for c in self.crates:
+            f = c.by_dp.get(dp)
+            if f is not None:
+                return f
+        return None
+
     def discr_of(self, adt, variant):
         a = self.adts.get(adt)
         if a and a["kind"] == "enum":
@@ -741,6 +750,8 @@ class Sim:
         callee_fn = None
         if target and c.get("resolved_kind", "Item") == "Item":
             callee_fn = self.find_fn(target, c.get("resolved_crate") or c.get("crate"))
+            if callee_fn is None:
+                callee_fn = self.find_dp(c.get("resolved_dp") or c.get("dp"))
         if callee_fn is not None and depth < self.max_depth and self.inline(fn, callee_fn):
             return self._inline(fn, env, bb, t, path, depth, callee_fn, args, cont)
         path.events.append(ev)
